@@ -253,6 +253,29 @@ CHECKS = {
         "recorded datasets."),
   technique="TLC-enumerated cases with exact rational oracles + non-interference replay + TLC trace validation",
  ),
+ "C18": dict(
+  level="model_checking",
+  design_ref="DESIGN.md sections 5 (C18) and 7",
+  text=("Five specifications with exact integer/rational oracles whose "
+        "laws TLC checks on every instance: MaskSpec (reachable states = "
+        "all 4-connected masks of a window; hole-freeness by flood fill; "
+        "boundary pixels), MomentsSpec (Green's formula moments of every "
+        "lattice polygon; translation invariance and axis-swap reciprocity "
+        "proved by TLC), VolumeSpec (truncated-cone sums; sign flip and "
+        "cubic scaling proved by TLC), BrightSpec (mean/variance/10th/90th "
+        "percentile of background-corrected integer images under masks), "
+        "CrosstalkSpec (integer-percent spill). Every enumerated instance "
+        "is evaluated by dclab.features.* and compared: contour on the "
+        "boundary and refill = mask (interior and border-touching), "
+        "moments, inert_ratio_raw^2 = mu20/mu02, prnc >= 1 and rotation "
+        "invariant, volume laws, brightness with scalar/per-event offsets "
+        "in list/array containers, crosstalk inversion."),
+  note=("claimed without 'approaches the analytic volume for discretised "
+        "spheres' (asymptotic) and the value of tilt (arctan); compiled "
+        "contour finder as installed; quick: 4x4 window (half of 11k masks), "
+        "7k polygons, 7k profiles, quarter of 19k images, 1.7k matrices."),
+  technique="TLC-enumerated lattice instances with exact oracles replayed on dclab.features",
+ ),
 }
 
 NOT_YET = "check not built yet (work in progress; see DESIGN.md section 5)"
